@@ -272,7 +272,7 @@ namespace pika::detail {
 
             // Mark this item as removed from the list.
             cb->prev_ = nullptr;
-            PIKA_VERIF_POINT("st.rs.deq", this, 0, 0);
+            PIKA_VERIF_POINT("st.rs.deq", this, cb->prev_ == nullptr, more_callbacks);
 
             // Don't hold lock while executing callback so we don't block other
             // threads from unregistering callbacks.
